@@ -62,6 +62,19 @@ def _is_flatten(e: ast.AST) -> bool:
         and (_is_flatten(e.args[0]) or isinstance(e.args[0], ast.Name))
 
 
+def counted_base(e: ast.AST, fnode: Optional[ast.AST] = None) -> Optional[ast.AST]:
+    """B when `e` counts the candidates of a list-of-sets B:  len([c for s in B for c in s])  or  sum(len(s) for s in B)."""
+    if isinstance(e, ast.Call) and astx.u(e.func) == "len" and len(e.args) == 1:
+        b = flatten_base(e.args[0], fnode)
+        return b if b is not e.args[0] else None
+    if isinstance(e, ast.Call) and astx.u(e.func) == "sum" and len(e.args) == 1 and isinstance(e.args[0], (ast.GeneratorExp, ast.ListComp)) and len(e.args[0].generators) == 1:
+        g = e.args[0].generators[0]
+        el = e.args[0].elt
+        if isinstance(g.target, ast.Name) and not g.ifs and isinstance(el, ast.Call) and astx.u(el.func) == "len" and len(el.args) == 1 and astx.is_name(el.args[0], g.target.id):
+            return g.iter
+    return None
+
+
 def flatten_base(e: ast.AST, fnode: Optional[ast.AST] = None) -> ast.AST:
     """The collection whose candidates `e` enumerates:
     [c for s in B for c in s] -> B ;  list(B)/set(B)/frozenset(B)/tuple(B) -> B ;
